@@ -472,6 +472,54 @@ func (e *OpEngine) Instances(name string, b Bounds) []*Call {
 			return []interp.Value{e.mkTensor("A", TensorArg{Dims: d}), interp.NilV{}}
 		}})
 	}
+	/* ----- Concat ----- */
+	if want("Concat") {
+		fn := e.P.Func(core.PkgCPU, "Concat")
+		for r := 1; r <= b.ConcatRank; r++ {
+			for nops := 2; nops <= b.ConcatOps; nops++ {
+				for _, base := range shapesFor("c", r, 2) {
+					// symbolic dim: precondition / shape
+					mk := func(dimv func() interp.Value, label string, grad bool, k int, mismatch int) {
+						add(&Call{Fn: fn, Label: label, CheckGrad: grad, Dim: k, MaxPaths: 8000,
+							Build: func(e *OpEngine) []interp.Value {
+								var shapes [][]sym.Poly
+								vals := make([]interp.Value, nops)
+								e.LeafRng = nil
+								for i := 0; i < nops; i++ {
+									d := append([]sym.Poly{}, base...)
+									if k >= 0 && k < r {
+										d[k] = sym.PAtom(fmt.Sprintf("w%d", i))
+										if i == 1 {
+											d[k] = sym.PInt(1)
+										}
+									}
+									if mismatch == 1 && i == nops-1 {
+										d[(k+1+r)%r] = sym.PAtom("zz")
+									}
+									if mismatch == 2 && i == nops-1 {
+										d = append(d, sym.PAtom("zz"))
+									}
+									shapes = append(shapes, d)
+									e.LeafRng = append(e.LeafRng, spec.Rng(-1e3, 1e3))
+									vals[i] = e.W.Boxed(e.mkTensor(roleName(i), TensorArg{Dims: d, Tracked: true}))
+								}
+								e.M.Base = sizeBase(shapes...)
+								return []interp.Value{e.M.SliceOf(e.A.TensorIface, vals, "ts"), dimv()}
+							}})
+					}
+					mk(func() interp.Value { return intV(sym.PAtom("dim")) }, fmt.Sprintf("Concat(%d ops, dim) base=%s", nops, shapeStr(base)), false, 0, 0)
+					for k := 0; k < r; k++ {
+						k := k
+						mk(func() interp.Value { return intV(sym.PInt(int64(k))) }, fmt.Sprintf("Concat(%d ops, %d) base=%s", nops, k, shapeStr(base)), true, k, 0)
+						if r >= 2 {
+							mk(func() interp.Value { return intV(sym.PInt(int64(k))) }, fmt.Sprintf("Concat(%d ops, %d) base=%s size-mismatch", nops, k, shapeStr(base)), false, k, 1)
+						}
+						mk(func() interp.Value { return intV(sym.PInt(int64(k))) }, fmt.Sprintf("Concat(%d ops, %d) base=%s rank-mismatch", nops, k, shapeStr(base)), false, k, 2)
+					}
+				}
+			}
+		}
+	}
 	return out
 }
 
